@@ -47,7 +47,12 @@ func main() {
 
 	cfg := tables.StdCfg()
 	g := &tables.Gen{U: tables.StdUniverse(), Rng: rng}
+	nrun := 0
 	run := func(ops []string) {
+		nrun++
+		if nrun%3 != 0 { // frames as raw bytes, a fifth of them damaged
+			ops = tables.RawOps(ops, rng, 20, func(k string) { r.Stat(k, 1) })
+		}
 		ips, macs := tables.Candidates(cfg, ops)
 		r.Do("t4", append([]string{cfg.Tok(), "0", tables.IPsTok(ips), tables.MacsTok(macs)}, ops...)...)
 		for _, o := range ops {
